@@ -10,6 +10,9 @@ mod semantics;
 #[cfg(test)]
 mod test;
 
+#[cfg(falconre_falcon_verif)]
+pub use self::register::verif_registers;
+
 /// The little-endian AArch64 translator.
 #[derive(Clone, Debug, Default)]
 pub struct AArch64;
